@@ -353,6 +353,26 @@ def run(ctx):
         else:
             ctx.violation(Finding('R-RESBOTH', RP, 'PseudoNetCDFFile.time2t', lp, 'the resolution is decided from %s only: times of the file (or edges) finer than every query are truncated to the coarser unit before '
                                   'the interpolation, and nearest / bounds lookups return the neighbouring step' % (sorted(probed) or 'nothing')))
+    # ---- the out-of-range action is taken when ANY requested value is outside (arrays mix inside and outside values)
+    for st in iter_stmts(v2.body):
+        if isinstance(st, ast.If) and isinstance(st.test, ast.Call) and isinstance(st.test.func, ast.Attribute) and st.test.func.attr in ('all', 'any') \
+                and any(isinstance(x, (ast.Raise,)) or (isinstance(x, ast.Call) and dotted(x.func) in ('warn', 'warnings.warn')) for b_ in st.body for x in ast.walk(b_)):
+            if st.test.func.attr == 'all':
+                ctx.violation(Finding('R-RANGECHECK', RP, 'PseudoNetCDFFile.val2idx', st, 'the out-of-range warning / error needs every requested value to be outside (%s): an array that mixes values inside and '
+                                      'outside the domain is silently clamped to the end cells' % norm(st.test)))
+            else:
+                ctx.ok('R-RANGECHECK', 'any-out', w17, norm(st.test))
+    # ---- the fractional index is converted to a cell number as it is: no tolerance is added before the truncation
+    ctx.rule('R-NOTOL', 'val2idx: the cell number is the truncated / rounded fractional index itself (no epsilon added: a value just inside a cell belongs to that cell)')
+    for st in iter_stmts(v2.body):
+        if isinstance(st, ast.Assign) and isinstance(st.targets[0], ast.Name) and st.targets[0].id == 'outidx':
+            eps = [b for b in ast.walk(st.value) if isinstance(b, ast.BinOp) and isinstance(b.op, (ast.Add, ast.Sub)) and isinstance(b.right, ast.Constant) and isinstance(b.right.value, float)
+                   and 0 < abs(b.right.value) < 0.5]
+            if eps:
+                ctx.violation(Finding('R-NOTOL', RP, 'PseudoNetCDFFile.val2idx', st, 'a tolerance is added before the truncation (%s): a value inside a cell but within that distance of its interior edge is reported '
+                                      'in the neighbouring cell, which does not contain it' % norm(eps[0])))
+            else:
+                ctx.ok('R-NOTOL', norm(st)[:40], w17, 'no tolerance')
     # ---- R-BOUNDSKEYS: both conventional names of the bounds variable are always candidates
     ctx.rule('R-BOUNDSKEYS', "val2idx looks for <dim>_bounds and <dim>_bnds whether or not the coordinate names a bounds variable")
     bk = [st for st in iter_stmts(v2.body) if isinstance(st, ast.Assign) and norm(st.targets[0]) == 'bounds_keys' and isinstance(st.value, ast.List)]
